@@ -369,7 +369,7 @@ def gen_cart(rng, ngrids, nloc, nray, thorough):
 
 
 
-# ---- PointLocations (bucket grid nearest neighbour) and Octree (oracle only)
+# ---- PointLocations (bucket grid nearest neighbour) and Octree
 
 def point_set(rng, a, s, N, n=None):
     import math
@@ -646,7 +646,9 @@ EXPECTED_BRANCHES = (
     + ["cart-%s-%s%s" % (a, b, c) for a in ("absorbed", "escaped") for b in ("1cell", "multi") for c in ("", "-periodic")]
     + ["cart-in-range", "cart-top-index-clamped", "cart-tau-exactly-zero", "cart-edge-or-corner-crossing", "cart-periodic-wrap",
        "cart-corrected-last-step"] + ["cart-ngb-boundary-%d" % i for i in range(0, 7)]
-    + ["pl-all-blocks", "pl-covered"] + ["pl-level-%d" % i for i in range(0, 5)])
+    + ["pl-all-blocks", "pl-covered"] + ["pl-level-%d" % i for i in range(0, 5)]
+    + ["amrd-depth-%d" % i for i in range(0, 4)] + ["amrd-%s-%s" % (a, b) for a in ("absorbed", "escaped") for b in ("1cell", "multi")]
+    + ["amrd-level-change", "amrd-periodic-wrap", "amrd-corrected-last-step"] + ["oct-found-%d" % i for i in range(0, 5)])
 
 
 def tally(ctx, ops, model, nontrivial=lambda op, ml: True):
@@ -661,7 +663,9 @@ def tally(ctx, ops, model, nontrivial=lambda op, ml: True):
 def run(ctx):
     ctx.level = "proof"
     ctx.assumptions += [
-        "Voronoi grids are not covered (C15 not applicable); AMRDensityGrid::interact and the Octree searches are checked by implementation-level oracles only (no Lean model)",
+        "Voronoi grids are not covered (C15 not applicable); Octree::get_closest_ngb and the periodic Octree distances are tied by the differential run and the brute-force oracle only (modelled, no theorem beyond octree_search_is_bruteforce, whose covering hypotheses are then assumptions)",
+        "AMR traversal theorems (amr_path_sum, amr_tau_account, amr_absorbed_cell_contains_end, amr_segments_in_cells) hold for every grid of well-formed trees (depth <= 10, hence every tree reachable by refinements), every medium, every photon and every loop fuel under RayHyp: positive box sides, start in the half-open box, non-zero direction, DBL_MAX above every wall distance, and no leaf spanning the whole box on a periodic axis (such a leaf is its own neighbour: the code spins with ds = 0); NO 2:1 level balance is needed (set_ngbs stores a same-level or coarser neighbour, a coarser one is always a leaf; amr_neighbours_geometric)",
+        "octree_build_search_partial: non-periodic tree, positions in the half-open box, n >= 2 (a one-position Octree searches below a root without children and returns nothing in the C++ as well); brute force over the STORED indices: that every index < n is stored needs the positions to separate within the 64 levels of the model's recursion fuel (the code recurses without bound, equal positions never separate; generators keep positions distinct)",
         "theorems are about exact arithmetic (Nat/Int for keys and traversals, real numbers for the geometric parts); IEEE rounding is not modelled, the tie is the bit-exact differential run on doubles",
         "AMR keys: depth <= 10 and <= 1024 blocks per axis (the widths of the 32+32 bit key); the C++ shifts `cell << 3*level` overflow int beyond that",
         "max_range_is_last / increase_range_next are for cubic bucket grids (sx = sy = sz), the only ones the PointLocations constructor builds; set_max_range is wrong for some non-cubic sizes (Lean counterexample 5x1x3, anchor (2,0,2))",
@@ -691,7 +695,8 @@ def run(ctx):
     ctx.cov["rule"] = ("one evaluation = one op line answered by implementation and model; distinct = different op text; "
                        "non-trivial = every line (each op exercises at least one modelled function on generated data); "
                        "branch_histogram = model branch tags (increase_indices branch, set_max_range choice, AMR leaf depth, "
-                       "Cartesian ray outcome x cells x periodicity, neighbour boundary count, bucket search exit and level)")
+                       "Cartesian ray outcome x cells x periodicity, neighbour boundary count, bucket search exit and level, AMRDensityGrid leaf depth / "
+                       "ray outcome / level change / periodic wrap, Octree result size)")
     if not ok:
         return
     for name, ops in streams:
@@ -742,13 +747,25 @@ MANIFEST = dict(
           "8, all periodicity flags, axis-aligned/diagonal/generic rays, exact optical-depth ties, random and clustered point sets); "
           "all answers bit-identical; the property oracles are evaluated on the implementation (containment and uniqueness of the "
           "located cell, sum of volumes, enumeration exactly once, neighbour mutuality, sum path = distance, optical depth "
-          "accounting, absorbed <=> tau reached, nearest/overlap search = brute force), also for AMRDensityGrid::interact and Octree "
-          "(oracle only)."),
+          "accounting, absorbed <=> tau reached, nearest/overlap search = brute force). "
+          "AMRDensityGrid photon traversal (get_wall_intersection + interact on the AMR tree model, neighbours through set_ngbs / "
+          "get_child(position), periodic_correction; Model/AMRTraverse.lean, bit-exact against the real class): for every grid of "
+          "well-formed trees, medium, photon, optical depth and loop fuel (RayHyp): sum path*direction = displacement up to whole box "
+          "lengths on periodic axes only, all paths >= 0 (amr_path_sum); absorbed => sum kappa*path = tau, escaped => tau - sum "
+          "kappa*path = remaining >= 0 (amr_tau_account); the current/returned leaf contains the final position "
+          "(amr_absorbed_cell_contains_end, false before d8e5613); every deposit goes to the leaf whose closed box contains the "
+          "whole segment (amr_segments_in_cells, false before 39f0cc7); the stored neighbour is geometrically adjacent across "
+          "refinement levels and periodic faces (amr_neighbours_geometric). Octree (Model/Octree.lean, bit-exact incl. result "
+          "order): pruned get_ngbs / get_ngbs_sphere = brute force over the stored points under the covering hypotheses "
+          "(octree_search_is_bruteforce); the tree built by add_position + set_auxiliaries(max) satisfies them for the Euclidean "
+          "distances (octree_build_search_partial); add_position loses no index (octree_add_position_leaves)."),
     note=("Trusted: Lean kernel + propext/Classical.choice/Quot.sound; hand models of the anchored functions tied by the differential run "
           "(doubles as bit patterns, tolerance rel 1e-9, measured bit-exact rate 1.0). Theorems are about exact arithmetic: IEEE "
           "rounding is not modelled. cartesian_segments assumes inverse direction = 1/direction, a non-zero direction and DBL_MAX "
           "above every wall distance (RayOK). Not proved: termination of interact in periodic grids without opacity (genuinely non-terminating); "
-          "AMRDensityGrid traversal and Octree searches (oracle only); Voronoi grids (C15 not applicable). max_range_is_last needs "
+          "Octree::get_closest_ngb and the periodic Octree covering (modelled and compared bit-exactly, brute-force oracle, no theorem); that "
+          "every position is stored in the Octree (recursion fuel 64, see assumptions); Voronoi grids (C15 not applicable). The AMR "
+          "traversal theorems need no 2:1 level balance; they exclude a leaf spanning a periodic axis (own neighbour, ds = 0 forever). max_range_is_last needs "
           "the cubic grid PointLocations always builds (Lean counterexample for 5x1x3). Four genuine defects of /repo were exposed by "
           "this check and are fixed (2fae05a, d8603ab, d8e5613, 39f0cc7; known_findings.txt); their reproducers stay in corpus/C16 and "
           "the oracles stay strict."),
